@@ -1183,6 +1183,115 @@ def m_map_get(interp, path, args, ret_ty, callee):
     return outs
 
 
+def _fresh_symmap(interp, ty="SymMap<fresh>"):
+    n = getattr(interp, "fresh_capacity", 0)
+    return StructV(ty, [StructV("Slot", [UndefV(), UndefV(), BoolV(False)]) for _ in range(n)])
+
+
+@model(r"^<" + MAP_TY + r"<.*> as Default>::default$|^(index_map_)?with_capacity::<.*>$|^" + MAP_TY + r"::<.*>::with_capacity$",
+       "empty map with the job's bound of free slots")
+def m_map_default(interp, path, args, ret_ty, callee):
+    return _fresh_symmap(interp)
+
+
+@model(r"^" + MAP_TY + r"::<.*>::(get_index|get_index_mut)$",
+       "entry at an insertion position: slot i (slots fill in order and this model never reorders; None when the slot is free)")
+def m_map_get_index(interp, path, args, ret_ty, callee):
+    mref = args[0]
+    m = _symmap(interp, path, mref)
+    k = z3.simplify(args[1].term)
+    if not z3.is_int_value(k):
+        raise Refuse("get_index with a symbolic position")
+    i = k.as_long()
+    if i >= len(m.fields):
+        return EnumV(ret_ty, 0, {0: []})
+    mut = canon(callee).endswith("get_index_mut")
+    outs = []
+    pres = m.fields[i].fields[2].term
+    for p, tag in interp.fork(path, [(pres, "some"), (z3.Not(pres), "none")]):
+        if tag == "none":
+            outs.append(Outcome(p, "ret", EnumV(ret_ty, 0, {0: []})))
+            continue
+        kref = RefV("&" + getattr(m.fields[i].fields[0], "ty", "K"), mref.fid, mref.local,
+                    tuple(mref.projs) + (("field", i), ("field", 0)))
+        vref = _slot_ref(mref, i, "&mut V" if mut else "&V", interp, p)
+        outs.append(Outcome(p, "ret", EnumV(ret_ty, 1, {1: [StructV("(&K, &V)", [kref, vref])]})))
+    return outs
+
+
+@model(r"^" + MAP_TY + r"::<.*>::(iter|iter_mut)$|^<&(mut )?" + MAP_TY + r"<.*> as IntoIterator>::into_iter$",
+       "borrowing iterator over the present slots in slot (= insertion) order")
+def m_map_iter(interp, path, args, ret_ty, callee):
+    _symmap(interp, path, args[0])
+    return StructV("SymMapIter", [args[0], IntV(0, "usize")])
+
+
+@model(r"^<(map::|hash_map::|btree_map::)(Iter|IterMut)<.*> as Iterator>::next$", "next present slot as (&key, &value)")
+def m_map_iter_next(interp, path, args, ret_ty, callee):
+    r = args[0]
+    if r.kind != "ref" or hasattr(r, "target"):
+        raise Refuse("Iterator::next needs a reference to the iterator place")
+    outs = []
+    work = [path]
+    while work:
+        p = work.pop()
+        it = interp.read(p, r.fid, r.local, r.projs)
+        if it.kind != "struct" or it.ty != "SymMapIter":
+            raise Refuse("map Iter::next on %r" % (it,))
+        mref, pos = it.fields[0], z3.simplify(it.fields[1].term).as_long()
+        m = _symmap(interp, p, mref)
+        if pos >= len(m.fields):
+            outs.append(Outcome(p, "ret", EnumV(ret_ty, 0, {0: []})))
+            continue
+        pres = m.fields[pos].fields[2].term
+        for p2, tag in interp.fork(p, [(pres, "yield"), (z3.Not(pres), "skip")]):
+            interp.write(p2, r.fid, r.local, r.projs, StructV("SymMapIter", [mref, IntV(pos + 1, "usize")]))
+            if tag == "skip":
+                work.append(p2)
+                continue
+            kref = RefV("&" + getattr(m.fields[pos].fields[0], "ty", "K"), mref.fid, mref.local,
+                        tuple(mref.projs) + (("field", pos), ("field", 0)))
+            vref = _slot_ref(mref, pos, "&V", interp, p2)
+            outs.append(Outcome(p2, "ret", EnumV(ret_ty, 1, {1: [StructV("(&K, &V)", [kref, vref])]})))
+    return outs
+
+
+@model(r"^<(map::|hash_map::|btree_map::)(Iter|IterMut)<.*> as IntoIterator>::into_iter$", "an iterator is its own IntoIterator")
+def m_map_iter_identity(interp, path, args, ret_ty, callee):
+    return args[0]
+
+
+@model(r"^<([iu](8|16|32|64|128|size)) as Default>::default$", "0")
+def m_int_default(interp, path, args, ret_ty, callee):
+    return IntV(0, re.match(r"^<(\w+) as", canon(callee)).group(1))
+
+
+@model(r"^Vec::<.*>::with_capacity$|^<Vec<.*> as Default>::default$", "empty vector")
+def m_vec_with_capacity(interp, path, args, ret_ty, callee):
+    return StructV(ret_ty or "Vec<?>", [])
+
+
+@model(r"^Vec::<.*>::(len|is_empty)$|^<impl \[.*\]>::(len|is_empty)$", "length of an entry-list vector / slice")
+def m_vec_len(interp, path, args, ret_ty, callee):
+    v = deref(interp, path, args[0])
+    if v.kind != "struct":
+        raise Refuse("len of %r" % (v,))
+    n = len(v.fields)
+    return IntV(n, "usize") if canon(callee).endswith("len") else BoolV(n == 0)
+
+
+@model(r"^Vec::<.*>::pop$", "remove and return the last element of an entry-list vector")
+def m_vec_pop(interp, path, args, ret_ty, callee):
+    r = args[0]
+    if r.kind != "ref" or hasattr(r, "target"):
+        raise Refuse("Vec::pop needs a reference to the vector place")
+    v = interp.read(path, r.fid, r.local, r.projs)
+    if not v.fields:
+        return EnumV(ret_ty, 0, {0: []})
+    interp.write(path, r.fid, r.local, r.projs, StructV(v.ty, list(v.fields[:-1])))
+    return EnumV(ret_ty, 1, {1: [v.fields[-1]]})
+
+
 @model(r"^" + MAP_TY + r"::<.*>::contains_key(::<.*>)?$", "some present slot holds the key")
 def m_map_contains(interp, path, args, ret_ty, callee):
     m = _symmap(interp, path, args[0])
@@ -1439,6 +1548,8 @@ def m_set_iter_next(interp, path, args, ret_ty, callee):
     if r.kind != "ref" or hasattr(r, "target"):
         raise Refuse("Iterator::next needs a reference to the iterator place")
     it = interp.read(path, r.fid, r.local, r.projs)
+    if it.kind == "struct" and it.ty == "SymMapIter":
+        return m_map_iter_next(interp, path, args, ret_ty, callee)
     if it.kind != "struct" or it.ty != "SetRefIter":
         raise Refuse("Iterator::next on %r" % (it,))
     if not it.fields:
